@@ -20,12 +20,24 @@ INIT = "psutil/__init__.py"
 
 
 class Lock:
+    """threading.RLock(): `with lock:` and lock.acquire() / lock.release() leave the same trace"""
+
     def vc_enter(self, it):
         it.ctx.log.append(("lock", "acquire"))
         return self
 
     def vc_exit(self, it, exc):
         it.ctx.log.append(("lock", "release"))
+
+    def vc_getattr(self, it, name):
+        from vc.interp import EnvFunc
+        if name == "acquire":
+            return EnvFunc("acquire", lambda it2, *a, **k: (it2.ctx.log.append(("lock", "acquire")), True)[1])
+        if name == "release":
+            return EnvFunc("release", lambda it2: it2.ctx.log.append(("lock", "release")))
+        if name in ("__enter__", "__exit__"):
+            return EnvFunc(name, lambda it2, *a: (self.vc_enter(it2) if name == "__enter__" else self.vc_exit(it2, None)))
+        it.raise_(AttributeError, name)
 
 
 def make_process(it, gone=None, reused=None, born_known=True, pid=None):
